@@ -389,7 +389,7 @@ pub fn check(a: &CheckArgs) -> i32 {
     }
     let thorough = a.thorough();
     let budget = a.budget(100);
-    let max_plans = a.runs.unwrap_or(if thorough { u64::MAX } else { 300 });
+    let max_plans = a.runs.unwrap_or(if thorough { u64::MAX } else { 2000 });
     let next = Arc::new(AtomicU64::new(0));
     let stop = Arc::new(AtomicBool::new(false));
     let agg = Arc::new(Mutex::new(Agg::default()));
